@@ -12,7 +12,7 @@ MODULES = ['Netpoll.Props.C04']
 MANIFEST = dict(
     text='Lean 4 theorems: for every split into vectors and every kernel acceptance pattern (short writes, EAGAIN) the bytes the kernel accepted followed by what is still buffered are the flushed stream, '
          'iovecs denotes exactly a prefix of the chunks, and for every chunking of received data the readable stream is their concatenation - on top of the C01 refinement. '
-         'Tied to the code by a scripted-kernel run of the real FDOperator callbacks compared with the model, and validated end-to-end on real unix/TCP sockets with tiny buffers, random Writer/Reader API mixes and a position-keyed stream.',
+         'Tied to the code by a scripted-kernel run of the real FDOperator callbacks compared with the model, and validated end-to-end on real unix/TCP sockets with tiny buffers, random Writer/Reader API mixes (blocking readers, OnRequest handlers, and polling readers that call Release() whenever Len()==0 while a raw peer sends 1..48-byte pieces; senders whose epoll_ctl calls are delayed by 0/2 ms while every flush exceeds the socket buffer) and a position-keyed stream; a stall watchdog reports bytes the peer sent that never become readable while the reader keeps reading.',
     note='partial: the kernel socket as a lossless FIFO (A-kernel-fifo) and Go\'s memory model for the single-producer/single-consumer input buffer (A-go-mm) are assumptions; the flusher/poller hand-off is C08, EOF ordering rests on C06/C11. Real-socket runs sample schedules.',
     technique='Lean 4 theorems over the spec queue with an adversarial kernel + scripted-kernel correspondence + real-socket stream oracle', design='§6 C04')
 
@@ -74,18 +74,18 @@ def run(rep):
     if c02: rep.notes.append('%d scenario(s) where a held zero-copy result changed before Release (property C02, reported by ./check C02): %s' % (len(c02), re.sub(r'ops=map\[[^]]*\]', '', c02[0])[:300]))
     # a failure on real sockets is schedule dependent: re-run the scenario to see whether it reproduces
     confirmed = []
-    for l in fails[:5]:
+    for l in fails[:2]:
         sid = int(re.search(r' id=(\d+)', l).group(1))
         again = 0
         for _ in range(3):
             l2, _, _ = real_run(rbin, rep.seed, nreal, 1, thorough, only=sid)
             if l2 and ':: FAIL' in l2[0]: again += 1
         confirmed.append((l, again))
-    tr = collections.Counter(re.search(r'transport=(\w+)', l).group(1) + ('/handler' if 'handler=true' in l else '/reader') for l in lines)
+    tr = collections.Counter(re.search(r'transport=(\w+)', l).group(1) + ('/jitter' if 'jitter=true' in l else '') + ('/handler' if 'handler=true' in l else '/poll' if 'poll=true' in l else '/reader') for l in lines)
     total_bytes = sum(int(re.search(r' got=(\d+)', l).group(1)) for l in lines)
-    rep.cov.update(evaluations=nseq + len(lines), distinct_nontrivial=len(finals) + len(set(re.sub(r'seed=\d+ id=\d+', '', l) for l in lines)),
+    rep.cov.update(evaluations=nseq + len(lines), distinct_nontrivial=len(finals) + len(set(re.sub(r'seed=\d+ id=\d+| ms=\d+', '', l) for l in lines)),
                    rule='(a) scripted kernel: random Writer ops, submit, output rounds accepting an arbitrary part of what GetBytes offered, input chunks of arbitrary size, reader ops - on a real connection in-package, every reply compared with Netpoll.Conn.Stream; '
-                        '(b) real sockets: unix pair / unix listener / tcp, SO_SNDBUF/SO_RCVBUF 4096 or default, payload 1 B..1 MB (32 MB thorough), random Writer API mix and chunking, OnRequest handler or blocking reader with random Reader ops and pace, sender closes after its last Flush; oracle = position-keyed stream + byte count at end-of-stream. distinct_nontrivial = distinct scripted final states + distinct real scenario lines',
+                        '(b) real sockets: unix pair / unix listener / tcp, SO_SNDBUF/SO_RCVBUF 4096 or default, payload 1 B..1 MB (32 MB thorough), random Writer API mix and chunking, OnRequest handler or blocking reader with random Reader ops and pace, sender closes after its last Flush; every sixth scenario: polling reader (Len()==0 -> Release(), else a random non-blocking Reader op) against a raw peer writing 0.1..1 MB in 1..48-byte pieces, with a stall watchdog (outstanding bytes, reader polling, nothing readable for 4 s); every sixth scenario: the operator.poll of the sender forwards to the real poll with a pause of 0 or 2 ms in front of every Control call (nothing dropped or reordered), payload >= 200 KB through 4 KB socket buffers, progress watchdog 10 s; oracle = position-keyed stream + byte count at end-of-stream + no stall. distinct_nontrivial = distinct scripted final states + distinct real scenario lines',
                    samples=sres[0]['samples'][:1] + [re.sub(r'ops=map\[[^]]*\]', '', l) for l in lines[:2]], scripted_sequences=nseq, scripted_op_histogram=dict(hist),
                    real_scenarios=len(lines), real_scenarios_by_kind=dict(tr), real_bytes_transferred=total_bytes, traces_validated_against_impl=nseq)
     rep.assumptions += ['A-kernel-fifo: a stream socket is a lossless FIFO and sendmsg/readv report honest counts',
